@@ -293,6 +293,9 @@ def make_layout(rng, volumes=None, home_own_volume=None, uid=None, xdg=None,
         order = list(L.mounts) + [rng.choice(L.mounts)]
         rng.shuffle(order)
         L.extra['partition_order_rel'] = order
+    if rng.random() < 0.25:
+        # the kernel's copy calls transfer a few bytes at a time
+        L.extra['short_io'] = rng.choice([1, 7, 16])
     if rng.random() < 0.1:
         # a set-uid wrapper: the effective uid is not the real one ($uid of the
         # specification is the real one)
